@@ -12,6 +12,7 @@ from ..mon.client import call
 from ..ctx import HarnessError
 
 PROBE_RATE = 0.0     # share of the failing steps which are probes (set by the C08 check)
+RECONNECT_RATE = 0.08  # share of the steps which disconnect an edge, edit it and add it again
 
 FRESH = ["new1", "Zq", "77", "1000", "x_y", "k9", "fresh.1", "31", "w", "M2"]
 
@@ -63,6 +64,10 @@ def _gen_step(rng, sim, removed_pool, failing, tags):
     named = _named(sim)
     if rng.random() < failing:
         return _gen_failing_step(rng, sim, named)
+    if RECONNECT_RATE and rng.random() < RECONNECT_RATE:
+        st = _gen_reconnect_step(rng, sim)
+        if st is not None:
+            return st
     if k < 0.40 and sim.recs:
         # removal
         cand = [r for r in sim.recs if r.rt not in ("H",)]
@@ -125,6 +130,93 @@ def _gen_step(rng, sim, removed_pool, failing, tags):
     return None
 
 
+RECONNECT_FIELDS = {"L": ["from_segment", "from_orient", "to_segment", "to_orient", "overlap"],
+                    "C": ["from_segment", "from_orient", "to_segment", "to_orient", "pos", "overlap"],
+                    "E": ["eid", "sid1", "sid2", "beg1", "end1", "beg2", "end2", "alignment"],
+                    "G": ["gid", "sid1", "sid2", "disp", "var"]}
+
+
+def _flip(x):
+    return x[:-1] + ("-" if x[-1] == "+" else "+")
+
+
+def _gen_reconnect_step(rng, sim):
+    """the documented way to edit the read-only fields of a connected edge: disconnect the line,
+    edit it, add the same line object again (tutorial, 'Editing read-only fields of connected
+    lines').  The text model removes the record (with its dependants) and adds the edited one."""
+    cand = [r for r in sim.recs if r.rt in (("L", "C") if sim.version == "gfa1" else ("E", "G"))]
+    if not cand:
+        return None
+    r = rng.choice(cand)
+    p = list(r.pos)
+    how = rng.choice(["swap", "flip1", "flip2", "flipboth", "redraw"])
+    if r.rt in ("L", "C"):
+        if how == "swap" and r.rt == "L":
+            p[0], p[1], p[2], p[3] = p[2], p[3], p[0], p[1]
+        elif how in ("flip1", "redraw"):
+            p[1] = "-" if p[1] == "+" else "+"
+        elif how == "flip2":
+            p[3] = "-" if p[3] == "+" else "+"
+        else:
+            p[1] = "-" if p[1] == "+" else "+"
+            p[3] = "-" if p[3] == "+" else "+"
+    elif r.rt == "E":
+        if how == "swap":
+            p[1], p[2] = p[2], p[1]
+            p[3], p[4], p[5], p[6] = p[5], p[6], p[3], p[4]
+            if not (p[7] == "*" or "," in p[7] or p[7].isdigit()):
+                p[7] = "*"
+        elif how == "flip1":
+            p[1] = _flip(p[1])
+        elif how == "flip2":
+            p[2] = _flip(p[2])
+        elif how == "flipboth":
+            p[1], p[2] = _flip(p[1]), _flip(p[2])
+        else:
+            side = rng.choice([1, 2])
+            seg = sim.by_name(p[side][:-1])
+            if seg is None or seg.rt != "S" or not seg.pos[1].isdigit() or int(seg.pos[1]) < 1:
+                return None
+            b, e, _k = G.interval(rng, int(seg.pos[1]))
+            p[1 + 2 * side], p[2 + 2 * side] = b, e
+            if not (p[7] == "*" or "," in p[7] or p[7].isdigit()):
+                p[7] = "*"
+    else:
+        if how == "swap":
+            p[1], p[2] = p[2], p[1]
+        elif how in ("flip1", "redraw"):
+            p[1] = _flip(p[1])
+        elif how == "flip2":
+            p[2] = _flip(p[2])
+        else:
+            p[1], p[2] = _flip(p[1]), _flip(p[2])
+    if p == r.pos:
+        return None
+    new = "\t".join([r.rt] + p + ["%s:%s:%s" % t for t in r.tags])
+    return {"op": "reconnect", "name": T.ident(r), "text": r.text(), "rt": r.rt, "newtext": new}
+
+
+def _reconnect_verdict(model, r, st, commit=False):
+    """the model after 'remove r, add the edited record'; (verdict, number of dependants removed)"""
+    import copy
+    m = model if commit else copy.deepcopy(model)
+    rr = r if commit else m.recs[model.recs.index(r)]
+    gone = m.remove(rr)
+    rec = S.parse_line(st["newtext"], m.version)
+    v = m.add_verdict(rec)
+    if v == "ok" and rec.rt == "L":
+        # a second link between the same segment ends: which of the two a path with '*' overlaps
+        # runs over is not specified (the generators of the start documents avoid parallel links too)
+        c = S.link_complement_pos(rec.pos[:5])[:4]
+        if any(x.rt == "L" and (x.pos[:4] == rec.pos[:4] or x.pos[:4] == c) for x in m.recs):
+            v = "unspec"
+    if v != "ok":
+        return ("skip" if v in ("merge", "dup") else "unspec"), 0
+    if commit:
+        m.add(rec)
+    return "ok", len(gone) - 1
+
+
 def _gen_probe_step(rng, sim, named):
     """a line which mentions identifiers in roles their carriers cannot play (a path through
     another path's name, an edge between a group and a segment, ...), possibly among valid and
@@ -140,6 +232,23 @@ def _gen_probe_step(rng, sim, named):
     pool = segs * 2 + fresh[:2] + undefined
     if not nonsegs or not pool:
         return None
+    groups = [(n, x) for n, x in named if x.rt in ("O", "U")]
+    if v == "gfa2" and groups and segs and rng.random() < 0.3:
+        # one more line of a group which defines a tag of the group differently (also when the
+        # stored value is 0 / empty, and when the new one is); if a tag is missing it is given first
+        n, x = rng.choice(groups)
+        item = rng.choice(segs) + ("+" if x.rt == "O" else "")
+        if x.tags:
+            tn, dt, val = rng.choice(x.tags)
+        else:
+            tn, dt, val = rng.choice([("nr", "i", "0"), ("fz", "f", "0.0"), ("jj", "J", "[]"), ("nn", "i", "5"),
+                                      ("zz", "Z", "a")])
+            return {"op": "settag", "name": n, "text": x.text(), "tag": tn, "dt": dt, "value": val, "rt": x.rt}
+        other = {"i": ["0", "7", "-1"], "f": ["0.0", "2.5"], "Z": ["other", "0"], "A": ["x", "y"],
+                 "J": ["[]", "[1]", "{}"], "H": ["00", "1A"], "B": ["c,1", "f,0.5"]}[dt]
+        other = [o for o in other if o != val] or ["1"]
+        return {"op": "add", "line": "%s\t%s\t%s\t%s:%s:%s" % (x.rt, n, item, tn, dt, rng.choice(other)),
+                "as": rng.choice(["str", "line"]), "expect": "probe"}
     bad = rng.choice(nonsegs)
     name = rng.choice((undefined or fresh[:1]) + fresh[:1] + ["*"])
     if v == "gfa1":
@@ -346,6 +455,11 @@ def _apply_model(sim, st, removed_pool=None):
     if op == "setext":
         r.pos[1] = st["value"]
         return "ok"
+    if op == "reconnect":
+        v, _n = _reconnect_verdict(sim, r, st)
+        if v == "ok":
+            _reconnect_verdict(sim, r, st, commit=True)
+        return v
     return "skip"
 
 
@@ -420,6 +534,17 @@ def do_step(ctx, g, st, version, vlevel):
         return call(ctx, "set(reference field)", l.set, st["field"], st["value"])
     if op == "setext":
         return call(ctx, "set(external)", l.set, "external", st["value"])
+    if op == "reconnect":
+        oldp = st["text"].split("\t")[1:]
+        newp = st["newtext"].split("\t")[1:]
+        edits = [(f, newp[i]) for i, f in enumerate(RECONNECT_FIELDS[st["rt"]]) if oldp[i] != newp[i]]
+
+        def recon():
+            l.disconnect()
+            for f, val in edits:
+                l.set(f, val)
+            g.add_line(l)
+        return call(ctx, "disconnect;edit;add_line(same object)", recon)
     raise HarnessError("unknown op " + op)
 
 
@@ -761,6 +886,8 @@ def _apply_model_preview(model, st):
         return "skip"
     if op == "rename":
         return rename_verdict(model, r, st["new"])
+    if op == "reconnect":
+        return _reconnect_verdict(model, r, st)[0]
     if op == "settag" and st["tag"] == "ID" and r.rt in ("L", "C"):
         other = model.by_name(st["value"])
         if other is not None and other is not r:
@@ -786,4 +913,6 @@ def _apply_model_commit(model, st):
         model.del_tag(r, st["tag"])
     elif op == "setext":
         r.pos[1] = st["value"]
+    elif op == "reconnect":
+        return _reconnect_verdict(model, r, st, commit=True)[1]
     return 0
